@@ -137,6 +137,23 @@ def check_written(path, obs, hu):
     return errs, facts
 
 
+KNOWN_WRAP = "C07-nistring1-wrap"
+
+
+def known_or_violation(rep, kid, detail, replay):
+    """a recorded defect: reported as KNOWN-FINDING while its entry has status "known"; once the
+    entry is "fixed" the same input class coming back is a violation"""
+    if any(k["id"] == kid for k in rep.known):
+        rep.known_finding(kid, detail)
+    else:
+        rep.violation("the repaired defect %s is back: %s" % (kid, detail[:200]), replay)
+
+
+def clip1(s):
+    """what NiString::Write leaves of a 1-byte-sized, zero-terminated string"""
+    return s[:254]
+
+
 def one_byte_wrap(t_or_case_kv):
     """#10: a 1-byte-sized header string whose length is 255 mod 256"""
     return any(len(t_or_case_kv.get(k, b"")) % 256 == 255 for k in ("creator", "e1", "e2", "e3"))
@@ -362,7 +379,7 @@ def tables_wf(t):
     def s4(s):
         return b"\0" not in s
     def s1(s):
-        return b"\0" not in s and len(s) < 255
+        return b"\0" not in s       # any length: Write cuts them to 254 characters
     return (t["file"] > wn.V3_1 and all(s4(s) for s in t["types"] + t["strings"])
             and all(s1(t[k]) for k in ("creator", "e1", "e2", "e3")))
 
@@ -442,14 +459,15 @@ def _run(rep, cov, tier, rng, replay, impl_bin, model_bin, samples, files, outdi
     sc_lines = ["savecore path=%s psz=%s hu=%d %s" % (p, obs.get("psz", ""), 1 if hu else 0, obs.get("hs", "")) for _, p, obs, hu, _ in written]
     sc_res = run_parallel(model_bin, sc_lines, batch=100)
     for (c, p, obs, hu, _), (_, ml, mcrash) in zip(written, sc_res):
-        if (ml or "").strip() != "M=savecore=1" and not wrap_expected(c, samples, outdir):
+        if (ml or "").strip() != "M=savecore=1":
             mism.append({"case": c, "what": "extracted save_core (header members + payload slices) does not reproduce the file nifly wrote", "model": (ml or str(mcrash))[:200]})
     for i, (c, outp, obs, hu, hl) in enumerate(written):
         errs, facts = check_written(outp, obs, hu)
         ckv = kv_of(c)
         wrap = wrap_expected(c, samples, outdir)
         if errs and wrap:
-            rep.known_finding("C07-nistring1-wrap", c[:120])
+            known_or_violation(rep, KNOWN_WRAP, "written file contradicts its own header tables: " + errs[0].split(" (")[0],
+                               {"case": c, "family": FAMILY, "errors": errs[:5]})
             errs = []
         elif errs:
             rep.violation("written file contradicts its own header tables: " + errs[0].split(" (")[0], {"case": c, "family": FAMILY, "errors": errs[:5]})
@@ -479,7 +497,7 @@ def _run(rep, cov, tier, rng, replay, impl_bin, model_bin, samples, files, outdi
             mism.append({"case": c, "what": "extracted walk vs tools/walknif.py disagree on walkability", "model": mkv.get("walk"), "walker": pw is not None})
         if pw is not None and mkv.get("wsizes", "") != ",".join(map(str, pt["sizes"])):
             mism.append({"case": c, "what": "payload slices of extracted walkb differ from the walker's"})
-        if mkv.get("reput") != "1" and not wrap:
+        if mkv.get("reput") != "1":
             mism.append({"case": c, "what": "put_hdr (get_hdr file) does not reproduce the header bytes nifly wrote", "model": ml[:200]})
     for j, p in enumerate(insamples):
         _, ml, mcrash = mres[len(written) + j]
@@ -541,13 +559,22 @@ def _run(rep, cov, tier, rng, replay, impl_bin, model_bin, samples, files, outdi
                     mism.append({"case": c, "what": "NiHeader::Get vs get_hdr on written header bytes", "impl": (iget or "")[:300], "model": mget[:300]})
             # the property: Get reads back what Put wrote
             if tables_wf(t):
-                want = wn.dump(t)
+                # Get reads back the header Put leaves in memory: the 1-byte-sized strings cut to 254 characters
+                tc = dict(t)
+                if wn.is_bethesda(t["file"], t["user"]):
+                    tc.update(creator=clip1(t["creator"]), e1=clip1(t["e1"]), e2=clip1(t["e2"]))
+                    if t["stream"] == 130:
+                        tc["e3"] = clip1(t["e3"])
+                want = wn.dump(tc)
                 tail = ckv.get("tail", "")
-                if iget != want or ikv.get("rest", "-").rstrip("-") != tail:
-                    rep.violation("NiHeader::Get does not read back the tables NiHeader::Put wrote", {"case": c, "family": FAMILY, "want": want[:300], "got": (iget or "")[:300]})
+                imem = ip[0].split(" mem=", 1)[1] if " mem=" in ip[0] else None
+                if iget != want or ikv.get("rest", "-").rstrip("-") != tail or imem != want:
+                    rpl = {"case": c, "family": FAMILY, "want": want[:300], "got": (iget or "")[:300], "mem": (imem or "")[:300]}
+                    if any(len(t[k]) > 254 for k in ("creator", "e1", "e2", "e3")):
+                        known_or_violation(rep, KNOWN_WRAP, "NiHeader::Get does not read back the header NiHeader::Put wrote / left in memory", rpl)
+                    else:
+                        rep.violation("NiHeader::Get does not read back the tables NiHeader::Put wrote", rpl)
                 nontriv.add(c)
-            elif one_byte_wrap(t) and t["file"] > wn.V3_1 and iget != wn.dump(t):
-                rep.known_finding("C07-nistring1-wrap", c[:100])
         else:
             if I != M:
                 mism.append({"case": c, "what": "%s: implementation vs model" % op, "impl": I[:300], "model": M[:300]})
@@ -560,13 +587,18 @@ def _run(rep, cov, tier, rng, replay, impl_bin, model_bin, samples, files, outdi
                 ckv, ikv = kv_of(c), kv_of(I)
                 s = bytes.fromhex(ckv.get("s", ""))
                 w = int(ckv["w"])
-                if b"\0" not in s and len(s) < 256 ** w - (1 if ckv["null"] == "1" else 0) - (1 if w == 4 else 0):
-                    if ikv["read"].rstrip("-") != s.hex() or ikv["rest"].rstrip("-") != ckv.get("tail", "") or ikv["mem"].rstrip("-") != s.hex():
-                        rep.violation("NiString::Read does not read back what NiString::Write wrote", {"case": c, "family": FAMILY, "impl": I[:300]})
+                nul = 1 if ckv["null"] == "1" else 0
+                maxlen = 256 ** w - 1 - nul
+                if b"\0" not in s and not (w == 4 and min(len(s), maxlen) + nul == 2 ** 32 - 1):
+                    # what is read back is what Write left in memory: the longest prefix the size can express
+                    want = s[:maxlen].hex()
+                    if ikv["read"].rstrip("-") != want or ikv["rest"].rstrip("-") != ckv.get("tail", "") or ikv["mem"].rstrip("-") != want:
+                        rpl = {"case": c, "family": FAMILY, "impl": I[:300]}
+                        if len(s) > maxlen:
+                            known_or_violation(rep, KNOWN_WRAP, "NiString::Read does not read back what NiString::Write wrote / left in memory", rpl)
+                        else:
+                            rep.violation("NiString::Read does not read back what NiString::Write wrote", rpl)
                     nontriv.add(c)
-                elif w == 1 and ckv["null"] == "1" and b"\0" not in s and len(s) % 256 == 255:
-                    if ikv["read"].rstrip("-") != s.hex():
-                        rep.known_finding("C07-nistring1-wrap", c[:60])
     for m in mism[:6]:
         rep.violation("correspondence container (Coq container model vs nifly / independent reader) no longer holds: " + m["what"],
                       dict(m, broken="correspondence:container", family=FAMILY), found_input=False)
@@ -581,7 +613,7 @@ def _run(rep, cov, tier, rng, replay, impl_bin, model_bin, samples, files, outdi
         "traces_validated_against_impl": evals,
         "correspondence_mismatches": len(mism),
         "unproved": [],
-        "refuted": ["C07_nistring1_len255_refuted", "C07_hdr_creator255_refuted", "C07_nistring1_truncates_refuted"],
+        "refuted": ["C07_stringref_old_long_refuted"],
         "trusted_base": vlib.BASE_TRUSTED + [
             "tools/walknif.py (independent reader; compared with the extracted Coq walk/get_hdr on every written file)",
             "modelled, not verified: std::iostream (as byte lists; reads past the end are Fault), std::string/std::vector, tellp/seekp on a fresh stream",
@@ -589,6 +621,6 @@ def _run(rep, cov, tier, rng, replay, impl_bin, model_bin, samples, files, outdi
         "exhaustive": False,
     })
     return rep.finish(cov, [
-        "wf_tables: counters equal their vector sizes (C06 invariant), values inside their C widths, header strings without NUL bytes and shorter than 2^32-1, the four 1-byte-sized Bethesda strings shorter than 255 (refuted without it), file version above 3.1 and not NDS",
+        "wf_tables: counters equal their vector sizes (C06 invariant), values inside their C widths, header strings without NUL bytes and shorter than 2^32-1, the four 1-byte-sized Bethesda strings NUL-free within their first 254 characters (any length: Put cuts them, the theorems speak about the header Put leaves in memory), file version above 3.1 and not NDS",
         "wf_model: version >= 20.2.0.5 (size table present), numBlocks = number of blocks, every payload shorter than 4 GiB",
         "string table: numStrings = table size and below 2^32-1 entries"])
